@@ -156,8 +156,9 @@ CLAIMED = {
             "(declared endpoints, each visible node once, every producer->consumer dependency drawn between visible representatives, no edge without a dependency); flatten lists "
             "every nested node once under its parent with distinct ids; validStates enumerates exactly the parent-closed assignments; rep is non-empty and visible.",
             BASE_NOTE + "No theorem says the routing code is faithful for all graphs (it is heuristic): the decision is per diagram. Checker leniency: any visible node inside a container "
-            "stands for a renamed port / gate target; INPUT and END edges are checked for declared endpoints only. Known findings C20-F1 (second mutex producer), C20-F2 (renamed "
-            "output of an expanded container in separate mode).", "DESIGN.md §7 C20"),
+            "stands for a renamed port / gate target; edges out of INPUT nodes are judged by a direct rule over the top-level nodes (each taker reached, no edge to a non-taker), edges "
+            "into END for declared endpoints only; hidden nodes under renamed container outputs are kept out of the generator (the checker resolves producers by name). Known finding "
+            "C20-F1 (second mutex producer).", "DESIGN.md §7 C20"),
 }
 
 NOT_YET = "not yet claimed: check under construction (see DESIGN.md section 7)"
